@@ -20,7 +20,7 @@ pub static DEF: PropDef = PropDef {
         "Bitcoin family: codes, names and type names only",
     ],
     shards: (8, 8),
-    budget_ms: (120_000, 120_000),
+    budget_ms: (300_000, 300_000),
 };
 
 fn code_bits(j: &dyn Jet) -> Vec<bool> {
